@@ -10,6 +10,7 @@ import (
 	"unsafe"
 
 	"github.com/feichai0017/NoKV/kv"
+	"github.com/feichai0017/NoKV/verifhook"
 )
 
 const (
@@ -229,8 +230,10 @@ func (t *artTree) Set(key []byte, value kv.ValueStruct) {
 
 func (t *artTree) tryInsert(key []byte, value kv.ValueStruct) bool {
 	root := t.root.Load()
+	verifhook.Yield(t, "art.insert.root-loaded")
 	if root == nil {
 		leaf := newARTLeaf(t.arena, key, value)
+		verifhook.Yield(t, "art.insert.root-cas")
 		return t.root.CompareAndSwap(nil, leaf)
 	}
 
@@ -252,6 +255,7 @@ func (t *artTree) tryInsert(key []byte, value kv.ValueStruct) bool {
 		depth += len(prefix)
 		nextKey := keyByte(key, depth)
 		next, _ := node.findChild(t.arena, nextKey)
+		verifhook.Yield(t, "art.insert.descend")
 		if next == nil {
 			return t.insertAtMissingChild(parent, parentKey, node, nextKey, key, value)
 		}
@@ -265,6 +269,7 @@ func (t *artTree) tryInsert(key []byte, value kv.ValueStruct) bool {
 
 func (t *artTree) insertAtLeaf(parent *artNode, parentKey byte, leaf *artNode, key []byte, value kv.ValueStruct, depth int) bool {
 	if bytes.Equal(leaf.leafKey(t.arena), key) {
+		verifhook.Yield(t, "art.leaf.overwrite")
 		leaf.storeValue(t.arena, value)
 		return true
 	}
@@ -307,10 +312,12 @@ func (t *artTree) insertAtMissingChild(parent *artNode, parentKey byte, node *ar
 }
 
 func (t *artTree) replaceChild(parent *artNode, parentKey byte, oldChild, newChild *artNode) bool {
+	verifhook.Yield(t, "art.replace.enter")
 	if parent == nil {
 		return t.root.CompareAndSwap(oldChild, newChild)
 	}
 	oldPayloadOffset := parent.payloadOffset.Load()
+	verifhook.Yield(t, "art.replace.payload-loaded")
 	payload := arenaPayloadFromOffset(t.arena, oldPayloadOffset)
 	if payload == nil {
 		return false
@@ -319,6 +326,7 @@ func (t *artTree) replaceChild(parent *artNode, parentKey byte, oldChild, newChi
 	if newPayload == nil {
 		return false
 	}
+	verifhook.Yield(t, "art.replace.cas")
 	return parent.payloadOffset.CompareAndSwap(oldPayloadOffset, arenaPayloadOffset(t.arena, newPayload))
 }
 
@@ -902,6 +910,7 @@ func (n *artNode) storeValue(arena *Arena, vs kv.ValueStruct) {
 		return
 	}
 	valOffset := arena.putVal(vs)
+	verifhook.Yield(n, "art.store-value")
 	n.value.Store(encodeValue(valOffset, vs.EncodedSize()))
 }
 
